@@ -174,7 +174,17 @@ func cmdRun(args []string) int {
 		exit = 1 // a replayed violation decides the verdict, whatever else stayed inconclusive
 	}
 	ev.WallS = time.Since(t0).Seconds()
-	if err := ev.write(filepath.Join(verifDir, "evidence", *prop+".json")); err != nil {
+	evPath := filepath.Join(verifDir, "evidence", *prop+".json")
+	if *only != "" || *maxPaths > 0 || os.Getenv("VF_DELAY") != "" || os.Getenv("VF_EVIDENCE_DIR") != "" {
+		// development runs (filtered / overridden) and runs against a deliberately changed tree never overwrite the registered evidence
+		d := os.Getenv("VF_EVIDENCE_DIR")
+		if d == "" {
+			d = filepath.Join(verifDir, "replays")
+		}
+		os.MkdirAll(d, 0o755)
+		evPath = filepath.Join(d, *prop+".evidence.json")
+	}
+	if err := ev.write(evPath); err != nil {
 		fmt.Fprintln(os.Stderr, "vcheck: evidence:", err)
 		return 2
 	}
@@ -279,6 +289,7 @@ type evidence struct {
 	Funcs       map[string]bool
 	ForkKinds   map[string]int
 	Cross       map[string]int
+	BySolver    int
 	PerHarness  []map[string]interface{}
 	Samples     []interface{}
 	Problems    []string
@@ -336,12 +347,16 @@ func (e *evidence) addHarness(s *gosym.HarnessSummary) {
 		u += v
 	}
 	e.Discharged += d
+	for _, v := range s.BySolver {
+		e.BySolver += v
+	}
 	e.Inconcl += u
 	for k, v := range s.Reached {
 		e.Reached[s.Name+"/"+k] += v
 	}
 	h := map[string]interface{}{"harness": s.Name, "paths": s.Paths, "status": s.ByStatus, "obligations_discharged": s.Asserts,
-		"forks": s.Forks, "max_decisions_on_a_path": s.MaxDecision, "ssa_steps": s.Steps}
+		"forks": s.Forks, "max_decisions_on_a_path": s.MaxDecision, "ssa_steps": s.Steps,
+		"obligations_needing_a_solver_verdict": s.BySolver, "symbolic_inputs_on_a_path_max": s.MaxInputs}
 	if len(s.Unknown) > 0 {
 		h["inconclusive"] = s.Unknown
 	}
@@ -395,6 +410,7 @@ func (e *evidence) write(path string) error {
 		"fork_decisions_by_kind":        e.ForkKinds,
 		"solver":                        map[string]interface{}{"name": "z3 4.8.12 (incremental, -in)", "queries": e.Queries, "sat": e.QSat, "unsat": e.QUnsat, "unknown": e.QUnknown, "errors": e.QErrors, "solver_time_s": round3(e.SolverS)},
 		"obligations_discharged":        e.Discharged,
+		"obligations_discharged_how":    map[string]interface{}{"by_solver_unsat_verdict": e.BySolver, "reduced_to_true_by_term_rewriting_during_symbolic_execution": e.Discharged - e.BySolver, "note": "an obligation over symbolic values that the hash-consing simplifier reduces to true (e.g. the returned term IS the input term) holds for all values without a query; feasibility queries for assumptions and branches are counted under solver.sat"},
 		"cross_checked_with_cvc5":       e.Cross,
 		"obligations_inconclusive":      e.Inconcl,
 		"reachability_witnesses":        e.Reached,
